@@ -56,7 +56,7 @@ FLAVOURS = {
     # name: (CXX, flags)
     "O1": ("g++", "-O1 -g0 -DNIFLY_VERIF -Wno-error"),
     "asan": ("clang++", "-O1 -g -fno-omit-frame-pointer -fsanitize=address,undefined "
-                        "-fno-sanitize-recover=undefined -DNIFLY_VERIF -Wno-error"),
+                        "-fno-sanitize=alignment -fno-sanitize-recover=undefined -DNIFLY_VERIF -Wno-error"),
 }
 
 
